@@ -141,12 +141,15 @@ func (s *segment) setupIndex() (err error) {
 		}
 	}
 	// The log is ahead of the index if the process died after writing a message
-	// set to the log and before indexing it. Rebuild the index from the log
-	// such that the two agree again. Anything left after the last complete
-	// message set is a partial write, which is dropped.
-	if s.position > indexedEnd(lastEntry) {
+	// set to the log and before indexing it. The index describes another log,
+	// which ended elsewhere, if the process died in Replace after renaming the
+	// log of the truncated or compacted segment and before renaming its index.
+	// Rebuild the index from the log such that the two agree again. Anything
+	// left after the last complete message set is a partial write, which is
+	// dropped.
+	if s.position != indexedEnd(lastEntry) {
 		if err := s.rebuildIndex(); err != nil {
-			return errors.Wrap(err, "failed to rebuild index behind log")
+			return errors.Wrap(err, "failed to rebuild index out of step with log")
 		}
 		lastEntry, err = s.Index.InitializePosition()
 		if err != nil {
@@ -213,12 +216,8 @@ func (s *segment) rebuildIndex() error {
 	s.Index.position = 0
 	s.Index.mu.Unlock()
 
-	// If log file is empty, we're done
-	if s.position == 0 {
-		return nil
-	}
-
-	// Scan the log file and rebuild index entries
+	// Scan the log file and rebuild index entries. If the log file is empty,
+	// there are none.
 	var pos int64
 	headerBuf := make([]byte, msgSetHeaderLen)
 
